@@ -13,6 +13,7 @@ import (
 	"strings"
 	"time"
 
+	"github.com/btcsuite/btcd/btcec/v2"
 	"github.com/btcsuite/btcd/btcutil"
 	"github.com/btcsuite/btcd/btcutil/hdkeychain"
 	"github.com/btcsuite/btcd/btcutil/psbt"
@@ -137,6 +138,37 @@ func makeTemplate(dir string) string {
 		}
 		coins = append(coins, wire.OutPoint{Hash: tx.TxHash(), Index: 0})
 	}
+	// an imported key with one coin: a spend from the imported account takes its
+	// change address from account 0 of the change scope
+	impSeed := sha256.Sum256([]byte("c09-imported-key"))
+	impKey, _ := btcec.PrivKeyFromBytes(impSeed[:])
+	wif, err := btcutil.NewWIF(impKey, params, true)
+	if err != nil {
+		ev.Fatal("wif: %v", err)
+	}
+	var impAddr btcutil.Address
+	err = walletdb.Update(x.db, func(tx walletdb.ReadWriteTx) error {
+		sm, err := w.Manager.FetchScopedKeyManager(scope)
+		if err != nil {
+			return err
+		}
+		ma, err := sm.ImportPrivateKey(tx.ReadWriteBucket([]byte("waddrmgr")), wif, &waddrmgr.BlockStamp{Hash: *params.GenesisHash})
+		if err != nil {
+			return err
+		}
+		impAddr = ma.Address()
+		return nil
+	})
+	if err != nil {
+		ev.Fatal("template import: %v", err)
+	}
+	{
+		tx := wsim.FundingTx("c09-imported", impAddr, 7e8)
+		rec, _ := wtxmgr.NewTxRecordFromMsgTx(tx, meta.Time)
+		if err := w.VerifAddRelevantTx(rec, &meta); err != nil {
+			ev.Fatal("template fund imported: %v", err)
+		}
+	}
 	if err := w.VerifConnectBlock(meta); err != nil {
 		ev.Fatal("template connect: %v", err)
 	}
@@ -241,6 +273,15 @@ var ops = map[string]func(x *world, r *result){
 	"TxWithChange": func(x *world, r *result) {
 		out := wire.NewTxOut(5e6, payTo)
 		tx, err := x.w.VerifTxToOutputs([]*wire.TxOut{out}, nil, &scope, 0, 1, 1000, wallet.CoinSelectionLargest, false, nil)
+		r.err, r.commits = err, true
+		if err == nil && tx.ChangeIndex >= 0 {
+			r.intl = []string{extAddr(tx.Tx.TxOut[tx.ChangeIndex].PkScript)}
+		}
+	},
+	"TxFromImported": func(x *world, r *result) {
+		// coins of the imported account, change from account 0 of the change scope
+		out := wire.NewTxOut(5e6, payTo)
+		tx, err := x.w.VerifTxToOutputs([]*wire.TxOut{out}, &scope, &scope, waddrmgr.ImportedAddrAccount, 1, 1000, wallet.CoinSelectionLargest, false, nil)
 		r.err, r.commits = err, true
 		if err == nil && tx.ChangeIndex >= 0 {
 			r.intl = []string{extAddr(tx.Tx.TxOut[tx.ChangeIndex].PkScript)}
@@ -355,7 +396,7 @@ func main() {
 	}
 	dir := ev.Scratch()
 	tmpl := makeTemplate(dir)
-	names := []string{"NewAddress", "NewChangeAddress", "CurrentAddress", "TxWithChange", "TxDryRun", "FundPsbtPreset", "TxNilChangeScope", "NewChangeAddress86"}
+	names := []string{"NewAddress", "NewChangeAddress", "CurrentAddress", "TxWithChange", "TxDryRun", "FundPsbtPreset", "TxNilChangeScope", "NewChangeAddress86", "TxFromImported"}
 	var scenarios []scenario
 	for i, a := range names {
 		for _, b := range names[i:] {
@@ -369,6 +410,7 @@ func main() {
 			{"NewAddress", "NewAddress", "NewAddress"}, {"NewAddress", "CurrentAddress", "NewAddress"},
 			{"NewChangeAddress", "TxWithChange", "NewChangeAddress"}, {"TxWithChange", "TxWithChange", "NewChangeAddress"},
 			{"NewAddress", "TxWithChange", "TxDryRun"}, {"FundPsbtPreset", "TxWithChange", "NewChangeAddress"},
+			{"TxFromImported", "TxWithChange", "NewChangeAddress"},
 		} {
 			scenarios = append(scenarios, scenario{Threads: tr})
 		}
@@ -485,7 +527,7 @@ func main() {
 		"distinct_nontrivial@set":            nontrivial,
 		"preemption_bound_completed@max":     bound,
 		"preemption_bound_three_threads@max": 2,
-		"scenarios@max":                      len(perScenario),
+		"scenarios@max":                      len(scenarios),
 		"executions_per_scenario":            perScenario,
 		"max_scheduling_points@max":          maxPoints,
 		"exhaustive":                         complete,
@@ -493,7 +535,7 @@ func main() {
 	})
 }
 
-const c09Rule = "for every pair (thorough: + selected triples) of address-issuing calls {NewAddress, NewChangeAddress, CurrentAddress, txToOutputs with change, txToOutputs dry run, FundPsbt with pre-set input} on the same account, every schedule with at most the stated number of preemptions (CHESS iteration 0,1,2,..) is executed on a fresh copy of a funded wallet; oracle: the returned addresses are linearizable w.r.t. a per-branch counter model (implies pairwise distinct fresh addresses and a gap-free range), key counts of the live manager = model = a manager freshly opened on the file; no call fails, no deadlock, no panic; states = distinct (scenario, outcome) pairs, non-trivial = outcomes in which at least two calls succeeded"
+const c09Rule = "for every pair (thorough: + selected triples) of address-issuing calls {NewAddress, NewChangeAddress, CurrentAddress, txToOutputs with change (account 0 / nil change scope / imported account), txToOutputs dry run, FundPsbt with pre-set input, NewChangeAddress of scope 86} on the same account, every schedule with at most the stated number of preemptions (CHESS iteration 0,1,2,..) is executed on a fresh copy of a funded wallet; oracle: the returned addresses are linearizable w.r.t. a per-branch counter model (implies pairwise distinct fresh addresses and a gap-free range), key counts of the live manager = model = a manager freshly opened on the file; no call fails, no deadlock, no panic; states = distinct (scenario, outcome) pairs, non-trivial = outcomes in which at least two calls succeeded"
 
 var c09Assumptions = []string{
 	"scheduling points are the mutex/rwmutex acquisitions of wallet, waddrmgr (sync import rewritten by an overlay generated from the current tree) and bbolt (local copy with the same one-line rewrite); code between two acquisitions runs atomically",
@@ -561,7 +603,7 @@ func checkExec(run *ev.Run, sc scenario, x *vsync.Exec, w *world, results []*res
 				return m, ok
 			}
 			return m, one(r.ext) == get(extPlan, m.e-1)
-		case "NewChangeAddress", "TxWithChange", "FundPsbtPreset":
+		case "NewChangeAddress", "TxWithChange", "FundPsbtPreset", "TxFromImported":
 			ok := one(r.intl) == get(intPlan, m.i)
 			m.i++
 			return m, ok
